@@ -325,7 +325,7 @@ fn attempt(slot: &mut Option<Worker>, tier: &str, req: &Value) -> Attempt {
     let w = slot.as_mut().unwrap();
     let sent = writeln!(w.stdin, "{req}").and_then(|_| w.stdin.flush());
     let mut cur: Option<usize> = None;
-    let mut wait = allowed(0);
+    let mut wait = Duration::from_secs(60); // until the first case starts: process start-up and case generation
     if sent.is_ok() {
         loop {
             match w.rx.recv_timeout(wait + Duration::from_secs(2)) {
@@ -1163,7 +1163,13 @@ fn gen_cases(item: &str, thorough: bool) -> Vec<Case> {
         "late" => late_cases(parts[1], parts[2]),
         _ => panic!("unknown item {item}"),
     };
+    // MSG / ending / EoSD ANM store the opcode in one byte: the test instructions 2000..2005 become 200..205 there
+    let small_ops = parts.iter().any(|p| ["anm06", "msg12", "msg06", "end10"].contains(p));
     for (i, c) in cases.iter_mut().enumerate() {
+        if small_ops && parts[0] != "seed" && parts[0] != "tok" && parts[0] != "byte" {
+            if let Ok(s) = std::str::from_utf8(&c.src) { c.src = s.replace("ins_200", "ins_20").into_bytes(); }
+            for m in &mut c.maps { *m = m.replace("\n200", "\n20"); }
+        }
         if i == 0 && (item.starts_with("map:del:") || (parts[0] == "late" && parts[2] == "alone") || (parts[0] == "lit" && parts[1] != "mission095" && parts[2] == "0") || item.starts_with("nest:paren:")) { c.must_ok = true; }
         c.sigkey = match parts[0] { "nest" => format!("nest-{}", parts[1]), "lit" | "map" | "late" => desc_key(&c.desc), f => f.to_string() };
     }
